@@ -795,7 +795,7 @@ def run_goal_files(chk, goals):
 
 def extra(chk, tier, rng):
   goals = make_goals(tier, rng) + make_misc_goals(tier, rng)
-  limit = 400 if tier == "quick" else 3600
+  limit = 300 if tier == "quick" else 3600
   if len(goals) > limit:
     # keep every 'holds' goal, thin out the coefficient goals deterministically
     holds = [g for g in goals if g[0] == "holds"]
